@@ -9,6 +9,7 @@ import (
 	"fmt"
 	"math/big"
 	"os"
+	"reflect"
 	"sort"
 	"strconv"
 )
@@ -196,4 +197,10 @@ func RunBatch(registry map[string]func()) (anyFailed bool) {
 		}
 	}
 	return
+}
+
+// SameFunc reports whether two function values are the same function (the executor compares
+// the SSA functions; natively the code pointers).
+func SameFunc(a, b any) bool {
+	return reflect.ValueOf(a).Pointer() == reflect.ValueOf(b).Pointer()
 }
